@@ -305,7 +305,7 @@ func checkC11(c *core.Ctx) {
 			return
 		}
 	}
-	acts := []ref.Op{{}, {K: "Relu"}, {K: "LeakyRelu", F: 0.01}, {K: "LeakyRelu", F: 0.3}, {K: "Sigmoid"}, {K: "TanhAct"}, {K: "Softmax", Dim: 1}}
+	acts := []ref.Op{{}, {K: "Relu"}, {K: "LeakyRelu", F: 0.01}, {K: "LeakyRelu", F: 0.3}, {K: "LeakyRelu", F: 2}, {K: "Sigmoid"}, {K: "TanhAct"}, {K: "Softmax", Dim: 1}}
 	lrs := []lrCfg{{nilCfg: true}, {lr: 0.1}, {lr: 0}, {lr: -0.05}}
 	maxDim := 2
 	steps := 3
